@@ -51,6 +51,7 @@ type ABlk struct {
 // Universe registers every CID / multihash / payload the harness creates so that
 // what the implementation returns can be projected back into the model's terms.
 type Universe struct {
+	mu    sync.Mutex // the scripted exchange runs inside the service's goroutine
 	cids  map[string]*ACid
 	mhs   map[string]*ACid
 	datas map[string]int
@@ -81,6 +82,8 @@ func stream(code uint64, dig int, n int) []byte {
 // Cid builds (or returns the registered) CID with the given prefix and digest identifier.
 // ver 0 is only possible for (dag-pb, sha2-256, 32).
 func (u *Universe) Cid(ver int, codec uint64, code uint64, length int, dig int) *ACid {
+	u.mu.Lock()
+	defer u.mu.Unlock()
 	var m mh.Multihash
 	realDigest := false
 	if code != mh.IDENTITY {
@@ -136,7 +139,9 @@ func (u *Universe) Block(c *ACid, data int) *ABlk {
 	} else {
 		raw = Payload(data)
 	}
+	u.mu.Lock()
 	u.datas[string(raw)] = data
+	u.mu.Unlock()
 	b, err := blocks.NewBlockWithCid(raw, c.C)
 	if err != nil {
 		panic(err)
@@ -148,6 +153,8 @@ var unknownCid = &ACid{Ver: -1, Codec: -1, Len: -1}
 
 // AbsCid projects a CID returned by the implementation.
 func (u *Universe) AbsCid(c cid.Cid) *ACid {
+	u.mu.Lock()
+	defer u.mu.Unlock()
 	if a, ok := u.cids[string(c.Bytes())]; ok {
 		return a
 	}
@@ -156,7 +163,9 @@ func (u *Universe) AbsCid(c cid.Cid) *ACid {
 
 // AbsBlk projects a block returned by the implementation.
 func (u *Universe) AbsBlk(b blocks.Block) *ABlk {
+	u.mu.Lock()
 	d, ok := u.datas[string(b.RawData())]
+	u.mu.Unlock()
 	if !ok {
 		d = 999999
 	}
@@ -662,12 +671,14 @@ func (s *Svc) snapshot() []StoreEnt {
 		if err != nil {
 			panic(err)
 		}
+		s.U.mu.Lock()
 		k, ok := s.U.mhs[string(c.Hash())]
+		d, ok2 := s.U.datas[string(b.RawData())]
+		s.U.mu.Unlock()
 		if !ok {
 			k = unknownCid
 		}
-		d, ok := s.U.datas[string(b.RawData())]
-		if !ok {
+		if !ok2 {
 			d = 999999
 		}
 		ents = append(ents, StoreEnt{k, d})
